@@ -14,8 +14,10 @@ open Png Png.Framing
 def realCfg (checkAdler : Bool) : Cfg where
   crc := fun b => (crc32 (ofList b)).toNat
   inflate := fun z =>
-    if checkAdler then (Inf.zlibInflate (ofList z) true).map (·.1.toList)
-    else (Inf.zlibInflateNoTrailer (ofList z)).map (·.toList)
+    match Inf.zlibPrefix (ofList z) checkAdler with
+    | .done o _ => some (o.toList, true)
+    | .more o => some (o.toList, false)
+    | .bad => none
   inflateBounded := fun z n =>
     match Inf.zlibInflate (ofList z) true (limit := n) with
     | some (o, _) => .ok o.toList
